@@ -4,6 +4,8 @@ import (
 	"encoding/json"
 	"fmt"
 	"go/format"
+	"go/scanner"
+	"go/token"
 	"math/rand"
 	"strings"
 
@@ -21,7 +23,8 @@ type c02Chunk struct {
 	Name  string   `json:"name"`
 	Lead  []string `json:"lead"`  // comment lines before the element
 	Tail  string   `json:"tail"`  // same-line comment after it ("" = none)
-	Inner bool     `json:"inner"` // a block comment inside the element
+	Inner bool     `json:"inner"` // a block comment inside the element's call parentheses
+	Gaps  []int    `json:"gaps"`  // block comments at these token gaps of the element text (index mod number of gaps)
 }
 
 type c02Op struct {
@@ -69,8 +72,56 @@ func c02Elem(kind string, c c02Chunk) (string, string) {
 	return "", ""
 }
 
+// block comments at token gaps of the element text: gap k is the position just after token k
+func c02WithGaps(el string, c c02Chunk) string {
+	if len(c.Gaps) == 0 {
+		return el
+	}
+	fset := token.NewFileSet()
+	file := fset.AddFile("", fset.Base(), len(el))
+	var sc scanner.Scanner
+	sc.Init(file, []byte(el), nil, scanner.ScanComments)
+	var ends []int
+	for {
+		pos, tok, lit := sc.Scan()
+		if tok == token.EOF {
+			break
+		}
+		if tok == token.SEMICOLON && lit == "\n" || tok == token.COMMENT {
+			continue
+		}
+		n := len(lit)
+		if n == 0 {
+			n = len(tok.String())
+		}
+		ends = append(ends, file.Offset(pos)+n)
+	}
+	if len(ends) == 0 {
+		return el
+	}
+	ins := map[int]string{}
+	for i, g := range c.Gaps {
+		e := ends[((g%len(ends))+len(ends))%len(ends)]
+		ins[e] += fmt.Sprintf(" /* g%d %s */", i, c.Name)
+	}
+	var sb strings.Builder
+	for i := 0; i <= len(el); i++ {
+		if t, ok := ins[i]; ok {
+			sb.WriteString(t)
+			if i < len(el) && el[i] != ' ' && el[i] != '\n' {
+				sb.WriteString(" ")
+			}
+		}
+		if i < len(el) {
+			sb.WriteByte(el[i])
+		}
+	}
+	return sb.String()
+}
+
 func c02ChunkText(kind string, c c02Chunk) string {
 	el, ind := c02Elem(kind, c)
+	el = c02WithGaps(el, c)
 	var sb strings.Builder
 	for _, l := range c.Lead {
 		sb.WriteString(ind + l + "\n")
@@ -386,6 +437,11 @@ func c02Gen(r *rand.Rand, kind string, blank bool) c02Input {
 				c.Tail = "// tail of " + c.Name
 			}
 			c.Inner = r.Intn(4) == 0 && kind != "import"
+			if r.Intn(3) == 0 && kind != "import" {
+				for g := 1 + r.Intn(2); g > 0; g-- {
+					c.Gaps = append(c.Gaps, r.Intn(12))
+				}
+			}
 			l = append(l, c)
 		}
 		in.Lists = append(in.Lists, l)
